@@ -52,7 +52,8 @@ func (tag *Tag) reqproc() {
 		case r := <-tag.respchan:
 			rc := r.Rc
 			fid := r.fid
-			err := r.Rc.Type == Rerror
+			// no reply at all (connection failure) counts as an error
+			err := rc == nil || rc.Type == Rerror
 
 			switch r.Tc.Type {
 			case Tauth:
